@@ -94,7 +94,7 @@ def h_fmt_display : Handler := fun j => do
     | "print_abs" => pure (printAbs (ratD j "abs") unit p)
     | "print_real" => pure (printReal (ratD j "re") unit p)
     | "print_sinosoidal" =>
-      pure (printSinusoidal (ratD j "abs") (ratD j "phase") (ratD j "phase_deg") (ratD j "w") (ratD j "w_hz")
+      pure (printSinusoidal (ratD j "re") (ratD j "abs") (ratD j "phase") (ratD j "phase_deg") (ratD j "w") (ratD j "w_hz")
         unit p (getBoolD j "sin" false) (getBoolD j "deg" false) (getBoolD j "hertz" false))
     | "print_active_power" => pure (printActivePower (ratD j "re") p)
     | "print_active_reactive_power" => pure (printActiveReactivePower (ratD j "re") (ratD j "im") p)
@@ -227,11 +227,18 @@ def h_annot_lookup : Handler := fun j => do
     ("spec_peak", match specKind ty with | some k => Json.bool (specPeak k) | none => Json.null),
     ("loops", Json.arr ((CC.Gen.Annot.annotation_loops.map fun (a, b) => Json.arr #[Json.str a, Json.str b]).toArray))])
 
+/-- op `fmt_consts`: generated constants the harness needs to compute the runtime parameters
+(`phase + k·pi/2`) exactly as the implementation does -/
+def h_fmt_consts : Handler := fun _ => do
+  pure (Json.mkObj [("sin_shift", Json.num CC.Gen.Fmt.print_sinosoidal_sin_shift),
+    ("spec_sin_shift", Json.num specSineQuarterTurns),
+    ("phase_threshold", jsonRat CC.Gen.Fmt.print_sinosoidal_phase_threshold)])
+
 def handlers : List (String × Handler) :=
   [("fmt_sf", h_fmt_sf), ("fmt_sc", h_fmt_sc), ("fmt_display", h_fmt_display), ("fmt_parse", h_fmt_parse),
    ("fmt_spec_real", h_fmt_spec_real), ("fmt_spec_complex", h_fmt_spec_complex),
    ("fmt_spec_polar", h_fmt_spec_polar), ("fmt_helper_range", h_fmt_helper_range),
-   ("annot_text", h_annot_text), ("annot_lookup", h_annot_lookup)]
+   ("annot_text", h_annot_text), ("annot_lookup", h_annot_lookup), ("fmt_consts", h_fmt_consts)]
 
 end CC.DFmt
 
